@@ -35,7 +35,9 @@ func snapToGridFloat64(f float64, dp int) float64 {
 	case dp > 0:
 		scale := math.Pow10(dp)
 		scaled := f * scale
-		if scaled > math.MaxFloat64 {
+		if math.IsInf(scaled, 0) || math.IsNaN(scaled) {
+			// Overflow (in either direction), or 0 * +Inf when dp is so large
+			// that scale itself overflows.
 			return f
 		}
 		return math.Round(scaled) / scale
@@ -45,7 +47,12 @@ func snapToGridFloat64(f float64, dp int) float64 {
 		if scaled == 0 {
 			return 0
 		}
-		return math.Round(scaled) * scale
+		snapped := math.Round(scaled) * scale
+		if math.IsInf(snapped, 0) {
+			// The nearest grid point is beyond the largest float.
+			return f
+		}
+		return snapped
 	default:
 		return math.Round(f)
 	}
